@@ -276,6 +276,14 @@ for d in sorted(glob.glob('/verif/seeded/C*-m*')):
     name=os.path.basename(d); prop=name.split('-')[0]
     M.setdefault(prop,[]).append(dict(name='seed-'+name,file='',find='',replace='',expect='',neutral=False,canary=False,
         note='independently seeded change, see seeded/%s/meta.json'%name, patch='seeded/%s/patch.diff'%name))
+neutral('default-check-interval-5s',E,"const defaultCheckConnInterval = 10 * time.Second","const defaultCheckConnInterval = 5 * time.Second",'another default check interval: the property does not fix its value')
+neutral('pop-container-heap-idiom',PQ,"	n := len(*pq)\n	item := (*pq)[n-1]\n	item.index = -1\n	*pq = (*pq)[0:(n - 1)]\n	return item\n","	old := *pq\n	n := len(old)\n	item := old[n-1]\n	old[n-1] = nil\n	item.index = -1\n	*pq = old[0 : n-1]\n	return item\n",'Pop written as in the container/heap documentation')
+neutral('copy-path-value-range',SET,"	for i := range elements {\n		err := record.AddInfoElement(elements[i])\n		if err != nil {\n			return err\n		}\n	}\n","	for _, e := range elements {\n		if err := record.AddInfoElement(e); err != nil {\n			return err\n		}\n	}\n",'value range instead of index range in the copying add path')
+neutral('udp-datagram-named-slice',U,"				cp.handleUDPMessage(address, buff[0:size])\n","				datagram := buff[:size]\n				cp.handleUDPMessage(address, datagram)\n",'the datagram slice gets a name')
+neutral('expiry-now-renamed',A,"	currTime := time.Now()\n	for a.expirePriorityQueue.Len() > 0 {\n		topItem := a.expirePriorityQueue.Peek()\n		if topItem.activeExpireTime.After(currTime) && topItem.inactiveExpireTime.After(currTime) {","	currTime := time.Now()\n	klog.V(5).InfoS(\"expiry scan\", \"now\", currTime)\n	for a.expirePriorityQueue.Len() > 0 {\n		topItem := a.expirePriorityQueue.Peek()\n		if topItem.activeExpireTime.After(currTime) && topItem.inactiveExpireTime.After(currTime) {",'a log line at the start of the scan')
+neutral('tcp-handler-select-no-break',T,"	select {\n	case <-cp.stopChan:\n		break\n	case <-doneCh:\n		break\n	}\n","	select {\n	case <-cp.stopChan:\n	case <-doneCh:\n	}\n",'redundant breaks removed from the select')
+neutral('refuse-count-separate-tests',CC,"			if count, err = strconv.Atoi(countP); err != nil || count < 0 {\n				http.Error(w, \"Invalid count query parameter\", http.StatusBadRequest)\n				return\n			}\n","			count, err = strconv.Atoi(countP)\n			if err != nil {\n				http.Error(w, \"Invalid count query parameter\", http.StatusBadRequest)\n				return\n			}\n			if count < 0 {\n				http.Error(w, \"Invalid count query parameter\", http.StatusBadRequest)\n				return\n			}\n",'the two refusal tests written separately')
+neutral('refresh-period-variable',E,"			ticker := time.NewTicker(time.Duration(input.TempRefTimeout) * time.Second)\n","			period := time.Duration(input.TempRefTimeout) * time.Second\n			ticker := time.NewTicker(period)\n",'the refresh period gets a name')
 for p,ms in M.items():
     json.dump(ms, open(f'/verif/checker/mutants/{p}.json','w'), indent=1)
 json.dump(N, open('/verif/checker/mutants/neutral.json','w'), indent=1)
